@@ -94,6 +94,16 @@ func hasDocument(r *http.Response) bool {
 	return true
 }
 
+// isHTMLContentType reports whether the media type of a Content-Type header value is text/html.
+// Media types are case-insensitive, and text/html-sandboxed or text/htmlx are different types.
+func isHTMLContentType(contentType string) bool {
+	mediaType := contentType
+	if i := strings.IndexAny(contentType, ";, \t"); i >= 0 {
+		mediaType = contentType[:i]
+	}
+	return strings.EqualFold(mediaType, "text/html")
+}
+
 func (h *Handler) modifyResponse(r *http.Response) error {
 	log := h.log.With(slog.String("url", r.Request.URL.String()))
 	if r.Header.Get("templ-skip-modify") == "true" {
@@ -104,7 +114,7 @@ func (h *Handler) modifyResponse(r *http.Response) error {
 		log.Debug("Skipping response modification because the response carries no complete document", slog.Int("status", r.StatusCode))
 		return nil
 	}
-	if contentType := r.Header.Get("Content-Type"); !strings.HasPrefix(contentType, "text/html") {
+	if contentType := r.Header.Get("Content-Type"); !isHTMLContentType(contentType) {
 		log.Debug("Skipping response modification because content type is not text/html", slog.String("content-type", contentType))
 		return nil
 	}
